@@ -203,8 +203,11 @@ def handle (args : List String) : Option String :=
     let fl ← parseFault fault
     let C := bs.map (·.f)
     let tee := flags.contains 't'
-    let c := if tee then (runFastT true C (mkOracle bs fl) (fuelFor C sc pk + 4 * (sc.length + 2)) ⟨init st0 sc pk, false⟩).c
-             else runFast C (mkOracle bs fl) (fuelFor C sc pk) (init st0 sc pk)
+    -- `r`: the transport is a plain io.ReadWriter without deadlines: the watcher moves nothing
+    let raw := flags.contains 'r'
+    let O := { mkOracle bs fl with dlRd := !raw, dlWr := !raw }
+    let c := if tee then (runFastT true C O (fuelFor C sc pk + 4 * (sc.length + 2)) ⟨init st0 sc pk, false⟩).c
+             else runFast C O (fuelFor C sc pk) (init st0 sc pk)
     let evs := c.tr.reverse.filterMap showEv
     pure s!"{joinList evs} {showOutcome c.pc} {c.st.toNat}"
   | _ => none
